@@ -83,11 +83,26 @@ func c03RawSig(c *Ctx) {
 			// and it must be a plain sub-slice chain of a parameter (no copy)
 			v := guard.Strip(arg)
 			for {
-				sl, isSl := v.(*ssa.Slice)
-				if !isSl {
-					break
+				if sl, isSl := v.(*ssa.Slice); isSl {
+					v = guard.Strip(sl.X)
+					continue
 				}
-				v = guard.Strip(sl.X)
+				// rest, ok := bytes.CutPrefix(sig, prefix): rest is a sub-slice of sig
+				if ex, isEx := v.(*ssa.Extract); isEx && ex.Index == 0 {
+					if cc, isCall := ex.Tuple.(*ssa.Call); isCall {
+						if nme := guard.CalleeName(&cc.Call); nme == "bytes.CutPrefix" || nme == "bytes.CutSuffix" {
+							v = guard.Strip(cc.Call.Args[0])
+							continue
+						}
+					}
+				}
+				if cc, isCall := v.(*ssa.Call); isCall {
+					if nme := guard.CalleeName(&cc.Call); nme == "bytes.TrimPrefix" || nme == "bytes.TrimSuffix" {
+						v = guard.Strip(cc.Call.Args[0])
+						continue
+					}
+				}
+				break
 			}
 			if _, isParam := v.(*ssa.Parameter); !isParam {
 				good = false
@@ -332,6 +347,42 @@ func zeroByteSlice(v ssa.Value) bool {
 func suffixSites(f *ssa.Function) []ssa.Instruction {
 	var out []ssa.Instruction
 	allInstrs(f, func(ins ssa.Instruction) {
+		// out := make([]byte, len(msg)+1); copy(out, msg) [; out[len(msg)] = 0]: msg || 0x00
+		if mk, isMk := ins.(*ssa.MakeSlice); isMk && core.IsByteSlice(mk.Type()) {
+			if bo, isB := guard.Strip(mk.Len).(*ssa.BinOp); isB && bo.Op == token.ADD {
+				for _, pr := range [][2]ssa.Value{{bo.X, bo.Y}, {bo.Y, bo.X}} {
+					lc, _ := guard.CallOf(pr[0])
+					one, isK := guard.ConstInt(pr[1])
+					if lc == nil || !isK || one != 1 {
+						continue
+					}
+					if b, isBu := lc.Call.Value.(*ssa.Builtin); isBu && b.Name() == "len" {
+						src := guard.Strip(lc.Call.Args[0])
+						copied, badStore := false, false
+						for _, ref := range *mk.Referrers() {
+							if cc, isC := ref.(*ssa.Call); isC {
+								if bb, isBB := cc.Call.Value.(*ssa.Builtin); isBB && bb.Name() == "copy" && cc.Call.Args[0] == ssa.Value(mk) && guard.Strip(cc.Call.Args[1]) == src {
+									copied = true
+								}
+							}
+							if ia, isIA := ref.(*ssa.IndexAddr); isIA {
+								for _, r2 := range *ia.Referrers() {
+									if st, isS := r2.(*ssa.Store); isS && st.Addr == ssa.Value(ia) {
+										if k, isC := guard.ConstInt(st.Val); !isC || k != 0 {
+											badStore = true
+										}
+									}
+								}
+							}
+						}
+						if copied && !badStore {
+							out = append(out, ins)
+							return
+						}
+					}
+				}
+			}
+		}
 		call, ok := ins.(ssa.CallInstruction)
 		if !ok {
 			return
